@@ -5,6 +5,16 @@ type lookup struct {
 	indexToKey []string
 	data       []Value
 	cap        int
+	posNames   *lookup // file and function names of instruction positions (16-bit indices of their own)
+}
+
+// names returns the table of the names used by instruction positions
+func (l *lookup) names() *lookup {
+	if l.posNames == nil {
+		l.posNames = newLookup()
+		l.posNames.Index("") // index 0: the zero position names nothing
+	}
+	return l.posNames
 }
 
 func newLookup() *lookup {
